@@ -455,8 +455,18 @@ def text_and_assembly(run, model, rule_text="C07.text", rule_asm="C07.assembly")
                     run.check(bad is None, rule_asm, construct, "location? description? text separator values", bad or "", gm.loc(), None, construct.split("[", 1)[1])
     # the text of a lambda condition is the source of its *body*
     cls = model.method("_represent", "ConditionLambdaInspection", "__init__")
-    s = src_of(cls.node)
-    run.check("atok.get_text(node.body)" in s and "self.text = text" in s, rule_text, cls.qual, "the condition text is the source text of the lambda's body", "the condition text is not `atok.get_text(node.body)` (the whole lambda or another node would be shown)", cls.loc())
+    cfl = get_flow(model, cls)
+    run.saw(cfl)
+    p_atok, p_node = (cls.params + [None, None, None])[1:3]
+    want_text = ("call", ("attr", ("param", p_atok), "get_text"), (("attr", ("param", p_node), "body"),), ())
+    stored = [(n, strip_sites(cfl.term(n.ast.value, n))) for n in cfl.cfg.nodes if n.kind == "stmt" and isinstance(n.ast, (ast.Assign, ast.AnnAssign)) and getattr(n.ast, "value", None) is not None for tg in (n.ast.targets if isinstance(n.ast, ast.Assign) else [n.ast.target]) if isinstance(tg, ast.Attribute) and tg.attr == "text" and isinstance(tg.value, ast.Name) and tg.value.id == cls.params[0]]
+    bad_t = None
+    if not stored:
+        bad_t = "the condition text is never stored"
+    for n, t in stored:
+        if t != want_text:
+            bad_t = "the condition text stored is %s, not the source text of the lambda's body as it stands in the file (`atok.get_text(node.body)`): what the message shows no longer parses to the expression that was evaluated (or is another node)" % show(t, 90)
+    run.check(bad_t is None, rule_text, cls.qual, "the condition text is the source text of the lambda's body, unchanged", bad_t or "", cls.loc(stored[0][0]) if stored else cls.loc())
     # the lambda located is the one of contract.condition; repr_values gets the same inspection/condition/mapping
     ok = False
     for n in flow.cfg.nodes:
